@@ -214,6 +214,33 @@ mut("c16-layout-validate-step", "C16", "seqio/genbank_subparsers.go", "\t\tfor j
 mut("c16-layout-bytes-index", "C16", "seqio/origin.go", "\t\t\tstart += 9\n", "\t\t\tstart += 8\n", ["LAYOUT|seqio.Origin.Bytes|constants"])
 mut("c16-silent-named-consts", "C16", "seqio/origin.go", "\tlines := length / 60\n\tret := lines * 76\n\n\tlastLine := length % 60\n", "\tconst perLine, lineBytes = 60, 76\n\tlines := length / perLine\n\tret := lines * lineBytes\n\n\tlastLine := length % perLine\n", silent=True)
 
+# ---------------------------------------------------------------- C11 (effects)
+mut("c11-revert-delete", "C11", "sequence.go",
+    "\tff := make(FeatureSlice, len(seq.Features()))\n\tfor i, f := range seq.Features() {\n\t\tf.Loc = f.Loc.Expand(offset, -length)\n\t\tff[i] = f\n\t}\n",
+    "\tff := seq.Features()\n\tfor i, f := range ff {\n\t\tff[i].Loc = f.Loc.Expand(offset, -length)\n\t}\n", ["PURE|gts.Delete"])
+mut("c11-revert-insert-helper", "C11", "sequence.go",
+    "\tr := make([]byte, 0, len(p)+len(q))\n\tr = append(r, p[:pos]...)\n\tr = append(r, q...)\n\treturn append(r, p[pos:]...)\n",
+    "\treturn append(p[:pos], append(q, p[pos:]...)...)\n", ["PURE|gts.insert"])
+mut("c11-revert-rotate", "C11", "sequence.go",
+    "\tq := seq.Bytes()\n\tp := make([]byte, 0, len(q))\n\tp = append(p, q[m:]...)\n\tp = append(p, q[:m]...)\n",
+    "\tp := seq.Bytes()\n\tp = append(p[m:], p[:m]...)\n", ["PURE|gts.Rotate"])
+mut("c11-revert-concat", "C11", "sequence.go",
+    "\t\tff := append(FeatureSlice(nil), head.Features()...)\n\t\tp := append([]byte(nil), head.Bytes()...)\n", "\t\tff, p := head.Features(), head.Bytes()\n", ["PURE|gts.Concat"])
+mut("c11-revert-featureslice-insert", "C11", "feature.go",
+    "\tgg := make(FeatureSlice, len(ff)+1)\n\tcopy(gg, ff[:i])\n\tgg[i] = f\n\tcopy(gg[i+1:], ff[i:])\n\n\treturn gg\n",
+    "\tff = append(ff, Feature{})\n\tcopy(ff[i+1:], ff[i:])\n\tff[i] = f\n\n\treturn ff\n", ["PURE|(gts.FeatureSlice).Insert"])
+mut("c11-reverse-in-place", "C11", "sequence.go",
+    "\tp := make([]byte, Len(seq))\n\tcopy(p, seq.Bytes())\n\tflip.Bytes(p)\n", "\tp := seq.Bytes()\n\tflip.Bytes(p)\n", ["PURE|gts.Reverse"])
+mut("c11-gbf-slice-renumber-in-place", "C11", "seqio/genbank.go",
+    "\tfor i := range refs {\n\t\trefs[i].Number = i + 1\n\t}\n\n\tgbf.References = refs\n", "\tfor i := range gbf.References {\n\t\tgbf.References[i].Number = i + 1\n\t}\n\t_ = refs\n", ["PURE|(seqio.GenBankFields).Slice"])
+mut("c11-ascomplete-on-argument", "C11", "sequence.go", "loc := f.Loc.Expand(end, end-seqlen).Expand(0, -start)", "loc := f.Loc", ["PURE|gts.asComplete"],
+    note="asComplete is only safe on the fresh results of Expand")
+mut("c11-props-clone-shallow", "C11", "nucleotide.go", "ff[i] = Feature{f.Key, f.Loc.Complement(), f.Props.Clone()}", "f.Props.Set(\"complemented\")\n\t\tff[i] = Feature{f.Key, f.Loc.Complement(), f.Props}", ["PURE|"],
+    note="(*Props).Set through a pointer to the loop copy: Set replaces/appends on the copy header; appending into spare capacity of the argument's qualifier list is a write")
+mut("c11-silent-insert-copy", "C11", "sequence.go",
+    "\tr := make([]byte, 0, len(p)+len(q))\n\tr = append(r, p[:pos]...)\n\tr = append(r, q...)\n\treturn append(r, p[pos:]...)\n",
+    "\tr := make([]byte, len(p)+len(q))\n\tcopy(r, p[:pos])\n\tcopy(r[pos:], q)\n\tcopy(r[pos+len(q):], p[pos:])\n\treturn r\n", silent=True)
+
 if __name__ == "__main__":
     here = os.path.dirname(os.path.abspath(__file__))
     ids = [m["id"] for m in M]
